@@ -1,5 +1,6 @@
-"""C04 - simulator lifecycle (part 1: command sequences at quiescence, incl. commands issued
-from handlers).  Engine A + inline worker."""
+"""C04 - simulator lifecycle.  Part 1: command sequences at quiescence, incl. commands issued from handlers
+(Engine A + inline worker, harness/c04.py).  Part 2: a command that overlaps the run thread's own transitions
+(Engine A + sequentialiser generated from the live source, harness/c04b.py, vf/seqthreads.py)."""
 import itertools
 
 from vf.driver import Cond
@@ -37,6 +38,33 @@ def _conds(tier):
     return conds
 
 
+def _overlap_conds(tier):
+    """part 2: a command overlapping the run thread's transitions (harness/c04b.py, sequentialiser)"""
+    conds = []
+    q = tier == "quick"
+    VMAXI = 48
+    # (scenario, PMAX of the last command, v-chunks, bound of bounded runs (-1 symbolic 1..3), warm-up (-1 symbolic 0..2), all leads w?)
+    if q:
+        scen = [("start,stop", 7, 4, -1, 0, False), ("runto,stop", 7, 4, 1, 0, False), ("runto,start", 12, 6, 1, 0, False)]
+    else:
+        scen = [("start,stop", 7, 8, -1, -1, True), ("runto,stop", 7, 8, -1, 0, False), ("runto,start", 12, 12, 1, 0, True),
+                ("runto,start", 12, 8, -1, -1, False), ("runtoi,runto", 12, 8, -1, 0, False), ("runto,runtoi", 12, 8, -1, 0, False),
+                ("start,start", 12, 4, -1, 0, False), ("runtoi,stop", 7, 4, -1, 0, False),
+                ("start,stop,start", 12, 6, -1, 0, False), ("runto,stop,start", 12, 6, 1, 0, False)]
+    for sc, pmax, chunks, arg, warm, allw in scen:
+        step = (VMAXI + chunks) // chunks
+        for lo in range(0, VMAXI + 1, step):
+            hi = min(VMAXI, lo + step - 1)
+            env = {"VF_SCEN": sc, "VF_VLO": lo, "VF_VHI": hi, "VF_PMAX": pmax, "VF_WMAX": 50, "VF_ARG": arg, "VF_WARM": warm}
+            if not allw:
+                env["VF_WSMALL"] = 3
+            conds.append(Cond(f"overlap/{sc}/run thread {lo}..{hi} statements ahead/pre-emption after <= {pmax} statements of the "
+                              f"last command/lead " + ("any" if allw else "0..3 or unbounded")
+                              + ("" if arg < 0 else f"/bound={arg}") + ("/warm-up symbolic" if warm < 0 else ""),
+                              "c04b", "h_overlap", env, 900 if q else 3000))
+    return conds
+
+
 def run(ctx):
     import pydsol.core.simulator as sm
     D, S = sm.DEVSSimulator, sm.Simulator
@@ -54,14 +82,29 @@ def run(ctx):
                           "event issues one symbolic command (all kinds except cleanup)",
         "model": "events at 1,2,2,4 (one with maximum priority), replication 0..5",
     }
+    ctx.bounds["overlap (part 2)"] = (
+        "scenario = initialize, then commands from {start, stop, run_up_to(b), run_up_to_including(b)}; before the LAST command the "
+        "run thread is v statements into its transition (v = 0..48: any position from 'just started' to 'terminated'), the caller "
+        "is pre-empted after p statements of the command (p = 0..7 for stop, 0..12 for start/bounded runs: every statement up to "
+        "its polling loop), the run thread then executes w statements (quick: 0..3 or as far as it can go; thorough: any), then "
+        "fair round-robin to quiescence; v, p, w, the bound b (1..3) and the warm-up time are symbolic integers; model: one event "
+        "at 1 plus the warm-up event, replication 0..2; quick: start/stop, run_up_to/stop, run_up_to/start; thorough adds "
+        "bounded-run pairs, start/start and three-command alternations (start,stop,start)")
     ctx.assumptions = [
-        "inline worker from the live AST: every command runs to quiescence before the next one (part 1 of the property); "
-        "overlap of a command with the run thread's own transitions (part 2: stop during natural end, start during "
-        "stopping) is NOT decided by this check - see DESIGN.md",
+        "part 1 - inline worker from the live AST: every command runs to quiescence before the next one",
+        "part 2 - sequentialiser: SimulatorWorkerThread.run, DEVSSimulator._run and Simulator.start/_start_impl/stop/_stop_impl/"
+        "run_up_to/run_up_to_including/end_replication are rewritten from their live source into generators that yield before every "
+        "statement (statement-level atomicity: one Python statement is one step; pre-emption INSIDE a statement, e.g. between the "
+        "evaluation of a condition and the branch, is not modelled); the wait on the wake-up Event is a loop on a flag; sleep() is a "
+        "50 ms tick of a virtual clock (the 'wait at most one second' loops end after 20 polls); exactly one pre-emption of the caller "
+        "inside the last command, everything else is a fair round-robin schedule; counterexamples are re-enacted on the REAL "
+        "threaded simulator by gating both threads on line events (sys.settrace) in the logged statement order - only what "
+        "reproduces there is reported",
         "reference protocol automaton written from the RunState/ReplicationState docstrings and the property text",
         "virtual clock; bare except of SimEvent.execute narrowed; replay uses real threads and checks threading.enumerate()",
     ]
-    ctx.outside = ["interleavings of a caller thread with the run thread (pre-emption inside commands)",
+    ctx.outside = ["schedules with more than one pre-emption inside a command, pre-emption inside a statement, more than one caller thread",
+                   "end_replication(), step(), initialize() and cleanup() overlapping a running run thread; commands issued by listeners",
                    "cleanup() or initialize() issued from inside a handler while running (terminating strategies)",
                    "end_replication() issued from a handler that runs inside step() (wakes the run thread while the caller is active)"]
-    ctx.crosshair(_conds(ctx.tier))
+    ctx.crosshair(_conds(ctx.tier) + _overlap_conds(ctx.tier))
